@@ -160,6 +160,8 @@ static void l1sched_a5_burst_enc(struct l1sched_lchan_state *lchan, struct l1sch
 static void l1sched_a5_burst_dec(struct l1sched_lchan_state *lchan, struct l1sched_burst_ind *bi) { }
 /* callees of l1sched_configure_ts, with their sched_trx.c effect on mf_layout and the channel list */
 static int l1sched_cfg_pchan_comb_ind(struct l1sched_state *sched, uint8_t tn, enum gsm_phys_chan_config pchan) { return 0; }
+/* libosmocore's panic handler (OSMO_ASSERT): a failed assertion of the code under test aborts the harness (reported as a crash) */
+void osmo_panic(const char *fmt, ...) { printf("osmo_panic\n"); fflush(stdout); abort(); }
 static void orc_free_lchans(struct l1sched_ts *ts)
 {
 	struct l1sched_lchan_state *lchan, *nxt;
